@@ -54,9 +54,9 @@ CHECKS = {
     'C04': dict(
         level='exploration',
         units=[
-            U('^TestC04_Dense$', (3, 500, 50), (5, 8000, 120)),
-            U('^TestC04_Sparse$', (3, 500, 50), (5, 8000, 120)),
-            U('^TestC04_Paginated$', (4, 500, 50), (6, 8000, 120)),
+            U('^TestC04_Dense$', (3, 500, 50), (5, 2500, 100)),
+            U('^TestC04_Sparse$', (3, 500, 50), (5, 2500, 100)),
+            U('^TestC04_Paginated$', (4, 500, 50), (6, 2500, 100)),
         ],
         essential_labels=['kind:dense', 'kind:sparse', 'kind:paginated', 'event:array-shift', 'event:page-created', 'event:buffer-compacted', 'op:merge', 'op:encdec', 'op:proto', 'op:reweight', 'op:copy', 'op:clear'],
         assumptions=COMMON_ASSUMPTIONS + ["weights are dyadic and bounded so that every float64 partial sum is exact (DESIGN §1.1); index spans are capped per store kind by memory"],
@@ -64,7 +64,7 @@ CHECKS = {
     'C05': dict(
         level='exploration',
         units=[
-            U('^TestC05_Stores$', (8, 2500, 60), (12, 15000, 120)),
+            U('^TestC05_Stores$', (8, 2500, 60), (12, 10000, 100)),
             U('^TestC05_Sketch$', (4, 3000), (4, 15000)),
         ],
         essential_labels=['kind:collow', 'kind:colhigh', 'folded', 'op-after-fold', 'merge-same-kind', 'merge-wide-into-empty', 'add-beyond-edge-after-collapse'],
@@ -96,7 +96,7 @@ CHECKS = {
     ),
     'C10': dict(
         level='exploration',
-        units=[U('^TestC10$', (12, 1000, 50), (16, 12000, 100))],
+        units=[U('^TestC10$', (12, 1000, 50), (16, 8000, 80))],
         essential_labels=['op:add', 'op:bad', 'op:merge', 'op:decmerge', 'op:copy', 'op:clear', 'op:reweight', 'op:encdec', 'op:changemapping', 'rejected-add', 'zero-weight-add', 'non-dyadic-phase', 'store:dense', 'store:sparse', 'store:paginated'],
         assumptions=COMMON_ASSUMPTIONS + ["sum bound (8+2k)*2^-52*sum|v*w| plus a few subnormal ulps, k = number of reweight/rescale/decode/merge steps (DESIGN §2 C10)", "after a ChangeMapping nothing is compared with == (bin weights are no longer dyadic)", "values within [1e-50,1e50] so that unit changes keep them far inside every mapping's range"],
     ),
@@ -120,7 +120,7 @@ CHECKS = {
     ),
     'C14': dict(
         level='exploration',
-        units=[U('^TestC14_Sketch$', (6, 400, 40), (8, 8000, 100)), U('^TestC14_Stores$', (6, 400, 40), (8, 8000, 100))],
+        units=[U('^TestC14_Sketch$', (6, 400, 40), (8, 3000, 80)), U('^TestC14_Stores$', (6, 400, 40), (8, 3000, 80))],
         essential_labels=['level:sketch', 'level:store', 'read:copy', 'read:merge-argument', 'read:encode', 'read:toproto', 'read:encodeproto', 'read:changemapping', 'read:store-reads', 'read:bins', 'copy-then-mutations-on-both-sides', 'mutation-after-read-on-buffered-paginated', 'variant:exact'],
         assumptions=COMMON_ASSUMPTIONS + ["aliasing between a returned protobuf message and the sketch is not asserted (the property speaks of the sketch's later answers)"],
     ),
